@@ -46,6 +46,7 @@ structure InitInv (g : MG) (W : List Wire) : Prop where
   nodesW : ∀ n ∈ g.nodes.map (·.1), ∃ w ∈ W, n = .inp w ∨ n = .out w
   regs : ∀ w, w ∈ W ↔ w.i < g.nOf w.t
   nodeId : g.nodeId = 0
+  count : g.nodes.length = 2 * W.length
 
 /-- the graph after `_add_reg_if_absent` of the next register of type `w.t` -/
 def addedReg (g : MG) (w : Wire) : MG :=
@@ -133,7 +134,7 @@ theorem InitInv.addReg {g : MG} {W : List Wire} (h : InitInv g W) (w : Wire) (hw
         exact hin hh
     simp only [h2, Bool.false_eq_true, if_false, gt_iff_lt, Nat.lt_irrefl]
     rfl
-  · refine ⟨⟨?_, ?_, ?_, ?_, ?_, ?_, ?_, ?_, ?_, ?_⟩, ?_, ?_, ?_⟩
+  · refine ⟨⟨?_, ?_, ?_, ?_, ?_, ?_, ?_, ?_, ?_, ?_⟩, ?_, ?_, ?_, ?_⟩
     · intro w' _
       rw [path_empty]
       simp
@@ -221,6 +222,9 @@ theorem InitInv.addReg {g : MG} {W : List Wire} (h : InitInv g W) (w : Wire) (hw
         · intro h1; left; exact h1
     · have : (addedReg g w).nodeId = g.nodeId := by unfold addedReg; exact nodeId_setN g _ _
       rw [this]; exact h.nodeId
+    · rw [hnodes, List.length_append, List.length_append, h.count]
+      simp only [List.length_cons, List.length_nil]
+      omega
 
 /-- the loop over one register type of `CircuitDAG.__init__` -/
 def addAllRegs (g : MG) (t : RT) (n : Nat) : MG :=
@@ -253,7 +257,7 @@ theorem InitInv.addAll {g : MG} {W : List Wire} (h : InitInv g W) (t : RT) (h0 :
       exact hother t' ht'
 
 theorem initInv_empty : InitInv {} [] := by
-  refine ⟨⟨?_, ?_, ?_, ?_, ?_, ?_, ?_, ?_, ?_, ?_⟩, ?_, ?_, rfl⟩
+  refine ⟨⟨?_, ?_, ?_, ?_, ?_, ?_, ?_, ?_, ?_, ?_⟩, ?_, ?_, rfl, rfl⟩
   · intro w hw; cases hw
   · intro w hw; cases hw
   · intro w hw; cases hw
@@ -299,16 +303,22 @@ def OpOK (W : List Wire) (o : Op) : Prop := (∀ w ∈ opWires o, w ∈ W) ∧ (
     counter, and the operations along the path of `w` are the operations of `l` that touch `w` -/
 def BuildInv (W : List Wire) (g : MG) (l : List Op) : Prop :=
   ∃ body, Rep0 g W body ∧ (∀ w ∈ W, RegOK g w) ∧ (∀ n ∈ g.nodes.map (·.1), ∀ k, n = .op k → k ≤ g.nodeId) ∧
-    (∀ w ∈ W, wireOps g body w = l.filter (touches w))
+    (∀ w ∈ W, wireOps g body w = l.filter (touches w)) ∧
+    (∀ w ∈ W, ∀ n ∈ body w, ∀ o, g.opOf n = some (.gate o) → ∀ w' ∈ opWires o, w' ∈ W ∧ n ∈ body w') ∧
+    g.nodes.length = 2 * W.length + l.length
 
 theorem nOf_eq_of_counts (g g' : MG) (h1 : g'.ne = g.ne) (h2 : g'.np = g.np) (h3 : g'.nc = g.nc) (t : RT) :
     g'.nOf t = g.nOf t := by cases t <;> simp [MG.nOf, h1, h2, h3]
 
 theorem BuildInv.add {W : List Wire} {g : MG} {l : List Op} (h : BuildInv W g l) (o : Op) (ho : OpOK W o) :
     ∃ g', g.add o = .ok g' ∧ BuildInv W g' (l ++ [o]) ∧ g'.ne = g.ne ∧ g'.np = g.np ∧ g'.nc = g.nc := by
-  obtain ⟨body, r, hreg, hid, hops⟩ := h
+  obtain ⟨body, r, hreg, hid, hops, hcomp, hcount⟩ := h
   obtain ⟨g', body', hadd, r', hb', hnodes, hnid, h1, h2, h3⟩ := r.add o ho.1 ho.2 hreg hid
-  refine ⟨g', hadd, ⟨body', r', ?_, ?_, ?_⟩, h1, h2, h3⟩
+  have hfreshN : Nd.op (g.nodeId + 1) ∉ g.nodes.map (·.1) := by
+    intro hm
+    have := hid _ hm (g.nodeId + 1) rfl
+    omega
+  refine ⟨g', hadd, ⟨body', r', ?_, ?_, ?_, ?_, ?_⟩, h1, h2, h3⟩
   · intro w hw
     obtain ⟨a, b⟩ := hreg w hw
     refine ⟨by rw [nOf_eq_of_counts g g' h1 h2 h3]; exact a, ?_⟩
@@ -324,10 +334,6 @@ theorem BuildInv.add {W : List Wire} {g : MG} {l : List Op} (h : BuildInv W g l)
       injection hk with hk
       omega
   · intro w hw
-    have hfreshN : Nd.op (g.nodeId + 1) ∉ g.nodes.map (·.1) := by
-      intro hm
-      have := hid _ hm (g.nodeId + 1) rfl
-      omega
     unfold wireOps
     rw [hb' w, List.filterMap_append, List.filter_append]
     congr 1
@@ -351,6 +357,31 @@ theorem BuildInv.add {W : List Wire} {g : MG} {l : List Op} (h : BuildInv W g l)
           | false => rfl
           | true => exact absurd (by simpa using hc) hwo
         simp [hwo, this]
+  · intro w hw n hn o' ho' w' hw'
+    rw [hb' w, List.mem_append] at hn
+    rw [hb' w', List.mem_append]
+    rcases hn with hn | hn
+    · obtain ⟨_, _, _, hop, _⟩ := r.bodyOp w hw n hn
+      have hmem := opOf_some_mem g n _ hop
+      rw [opOf_append_old g g' _ hnodes n hmem] at ho'
+      obtain ⟨a, b⟩ := hcomp w hw n hn o' ho' w' hw'
+      exact ⟨a, Or.inl b⟩
+    · by_cases hwo : w ∈ opWires o
+      · rw [if_pos hwo, List.mem_singleton] at hn
+        subst hn
+        have : g'.opOf (.op (g.nodeId + 1)) = some (.gate o) := by
+          rw [opOf_append g g' _ hnodes, opOf_none_of_not_mem g _ hfreshN]
+          simp
+        rw [this] at ho'
+        injection ho' with ho'
+        injection ho' with ho'
+        subst ho'
+        rw [if_pos hw']
+        exact ⟨ho.1 w' hw', by simp⟩
+      · rw [if_neg hwo] at hn; cases hn
+  · rw [hnodes, List.length_append, hcount]
+    simp only [List.length_cons, List.length_nil, List.length_append]
+    omega
 
 theorem build_fold (W : List Wire) : ∀ (todo : List Op) (g : MG) (done : List Op), BuildInv W g done →
     (∀ o ∈ todo, OpOK W o) →
@@ -375,7 +406,7 @@ theorem mem_wiresN (ne np nc : Nat) (w : Wire) :
 
 theorem buildInv_init (ne np nc : Nat) : BuildInv (wiresN ne np nc) (MG.init ne np nc) [] := by
   obtain ⟨h, _, _, _⟩ := initInv_init ne np nc
-  refine ⟨fun _ => [], h.rep, ?_, ?_, ?_⟩
+  refine ⟨fun _ => [], h.rep, ?_, ?_, ?_, ?_, ?_⟩
   · intro w hw
     refine ⟨(h.regs w).1 hw, ?_⟩
     rw [hasNode_iff]
@@ -385,6 +416,8 @@ theorem buildInv_init (ne np nc : Nat) : BuildInv (wiresN ne np nc) (MG.init ne 
     · rw [h1] at hk; cases hk
     · rw [h1] at hk; cases hk
   · intro w _; rfl
+  · intro w _ n hn; cases hn
+  · simpa using h.count
 
 /-- **the multigraph of a circuit is a family of register paths** and the operations along the path of register `w` are
     the operations of the circuit that touch `w`, in the order they were added -/
